@@ -170,6 +170,32 @@ def check_parse(case, ctx):
             ctx.fail('C14.parse/from_string-identity', 'text %r' % text)
         if (rxn.transition_state is None) != (ts is None):
             ctx.fail('C14.parse/from_string-ts', 'text %r' % text)
+        # the kinetic subclasses build the same reaction from the same text and keep the options they are given
+        from pmutt.reaction import ChemkinReaction
+        from pmutt.omkm.reaction import SurfaceReaction
+        from pmutt.empirical.nasa import Nasa
+        a7 = [4.0, 0.0, 0.0, 0.0, 0.0, -1000.0, 5.0]
+        species = {n: Nasa(name=n, T_low=100., T_mid=1000., T_high=5000., a_low=a7, a_high=a7, phase='G') for n in case['pool']}
+        rxn = Reaction.from_string(text, species, species_delimiter=sd, reaction_delimiter=rd)
+        opts = {'is_adsorption': True, 'sticking_coeff': 0.25, 'beta': 0.5, 'notes': 'n1'}
+        for cls, extra in ((ChemkinReaction, {}), (SurfaceReaction, {'id': 'r_0042', 'direction': 'cleavage', 'A': 3.0, 'Ea': 7.0,
+                                                                     'use_motz_wise': True})):
+            sub = cls.from_string(text, species, species_delimiter=sd, reaction_delimiter=rd, **opts, **extra)
+            same = ([id(x) for x in sub.reactants] == [id(x) for x in rxn.reactants] and
+                    [id(x) for x in sub.products] == [id(x) for x in rxn.products] and
+                    list(sub.reactants_stoich) == list(rxn.reactants_stoich) and
+                    list(sub.products_stoich) == list(rxn.products_stoich) and
+                    (sub.transition_state is None) == (rxn.transition_state is None) and
+                    (rxn.transition_state is None or
+                     ([id(x) for x in sub.transition_state] == [id(x) for x in rxn.transition_state] and
+                      list(sub.transition_state_stoich) == list(rxn.transition_state_stoich))))
+            if not same:
+                ctx.fail('C14.parse/subclass-from_string:%s' % cls.__name__, 'text %r: %s vs %s' % (
+                    text, sub.to_string(), rxn.to_string()))
+            lost = [k for k, v in dict(opts, **extra).items() if getattr(sub, k, '<absent>') != v]
+            if lost:
+                ctx.fail('C14.parse/subclass-from_string-options:%s' % cls.__name__, 'options not kept: %r' % (
+                    {k: getattr(sub, k, '<absent>') for k in lost},))
     else:
         ctx.label('unknown-species')
         victim = {'react': rn, 'prod': pn, 'ts': ts[0] if ts else None}[miss][-1]
